@@ -958,3 +958,148 @@ def serialisers_fresh(ctx):
     outputs, locktime or commands change, so an accessor that answers from them returns the bytes of an earlier state."""
     from .common_fresh import serialisers_fresh as run
     run(ctx)
+
+
+@PROP.obligation('C06.raw-bytes-origin', canaries=[
+    mut.replace_stmt('transactions', 'Transaction.parse', 'return cls.parse_bytesio(rawtx, strict, network, raw_bytes=raw_bytes)',
+                     'if isinstance(rawtx, BytesIO) and not raw_bytes:\n    raw_bytes = rawtx.getvalue()\nreturn cls.parse_bytesio(rawtx, strict, network, raw_bytes=raw_bytes)', 'whole buffer of a caller-supplied stream handed over as the bytes of the transaction'),
+    mut.replace_expr('transactions', 'Transaction.parse_hex', 'BytesIO(raw_bytes)', 'BytesIO(raw_bytes[4:])', 'stream and raw bytes of parse_hex differ'),
+])
+def raw_bytes_origin(ctx):
+    """parse_bytesio TRUSTS a supplied raw_bytes: it becomes Transaction.rawtx, the size and (legacy) the hashed bytes of the txid, and the
+    stream is not sliced. Every caller that passes raw_bytes therefore passes a stream it has just built from exactly those bytes
+    (BytesIO(raw_bytes)); for a stream supplied by ITS caller - whose buffer may hold other transactions or start elsewhere - it passes
+    none. Each wrapper is evaluated for an argument that is bytes, str and a stream."""
+    m = ctx.repo.mod('transactions')
+    n = 0
+    for qn, fn in sorted(m.functions.items()):
+        calls = [c for c in ast.walk(fn) if isinstance(c, ast.Call) and isinstance(c.func, ast.Attribute) and c.func.attr == 'parse_bytesio' and (any(k.arg == 'raw_bytes' for k in c.keywords) or len(c.args) >= 5)]
+        if not calls:
+            continue
+        q = 'transactions:' + qn
+        params = [a.arg for a in fn.args.args]
+        for kind in ('bytes', 'str', 'BytesIO'):
+            seen = []
+
+            def hook(it, base, args, kwargs, st, node):
+                rb = kwargs.get('raw_bytes', args[4] if len(args) >= 5 else b'')
+                seen.append((term(args[0]) if args else None, term(rb), node))
+                return S(('var', 'tx'))
+
+            def decide(t, kind=kind):
+                if isinstance(t, tuple) and t and t[0] == 'isinstance':
+                    return kind in show(t[2])
+                return None
+            it = Interp(ctx.repo, 'transactions', hooks={'.parse_bytesio': hook}, decide=decide)
+            try:
+                it.run_function(fn, {p_: S(('var', p_)) for p_ in params[:2]})
+            except AnalysisError as e:
+                ctx.undecided('%s with a %s argument not evaluable: %s' % (qn, kind, str(e)[:100]))
+            if not seen:
+                ctx.undecided('%s with a %s argument: parse_bytesio is not reached' % (qn, kind))
+            for stream, rb, node in seen:
+                n += 1
+                ctx.saw('%s(%s) -> parse_bytesio(%s, raw_bytes=%s)' % (qn, kind, show(stream)[:40], show(rb)[:40]))
+                if rb in (b'', None):
+                    continue
+                ok = stream == ('call', 'BytesIO', (rb,), ())
+                ctx.require(ok, q, 'for a %s argument parse_bytesio is given the stream `%s` and raw_bytes `%s`: the stream was not built from exactly those bytes' % (kind, show(stream)[:60], show(rb)[:60]), node,
+                            'a legacy transaction read from a stream that holds more than this one transaction reports the hash of the whole buffer as its txid, and that buffer as rawtx / size')
+    ctx.floor(n, 9, 'wrapper scenarios')
+
+
+def _mut_unguard_unlock(tree):
+    """dedent the body of `if not self.unlocking_script or self.strict:` in Input.update_scripts"""
+    for cls in tree.body:
+        if isinstance(cls, ast.ClassDef) and cls.name == 'Input':
+            for f in cls.body:
+                if isinstance(f, ast.FunctionDef) and f.name == 'update_scripts':
+                    for n in ast.walk(f):
+                        for field in ('body', 'orelse'):
+                            lst = getattr(n, field, None)
+                            if not isinstance(lst, list):
+                                continue
+                            for i, st_ in enumerate(lst):
+                                if isinstance(st_, ast.If) and 'self.strict' in unparse(st_.test) and 'unlocking_script' in unparse(st_.test):
+                                    lst[i:i + 1] = st_.body
+                                    return True
+    return False
+
+
+@PROP.obligation('C06.nonstrict-keeps-script', canaries=[
+    mut.Canary('scriptSig of a <sig> <pubkey> input regenerated by the non-strict readers too', 'transactions', _mut_unguard_unlock),
+])
+def nonstrict_keeps_script(ctx):
+    """The non-strict readers (Block.parse, parse_transactions, Transaction.parse(strict=False)) keep the scriptSig bytes they read, so
+    that raw() / Block.serialize() reproduce them. Input.update_scripts - run by the constructor - is evaluated as a whole for an input
+    that arrives with an unlocking script, strict=False, one parsed signature and key, for the <sig> <pubkey> script types and every
+    witness type: self.unlocking_script ends as the bytes it started with (a non-minimal push or a signature with sighash byte 0 is not
+    re-encoded)."""
+    q = 'transactions:Input.update_scripts'
+    fn = ctx.repo.func(q)
+    U = S(('var', 'scriptsig'), 'bytes')
+    n = 0
+    for stype, wt in (('sig_pubkey', 'legacy'), ('sig_pubkey', 'segwit'), ('p2sh_p2wpkh', 'p2sh-segwit')):
+        heap = {A(SELF, 'script_type'): stype, A(SELF, 'witness_type'): wt, A(SELF, 'strict'): False, A(SELF, 'unlocking_script'): U,
+                A(SELF, 'public_hash'): S(('var', 'h'), 'bytes'), A(SELF, 'keys'): [S(('var', 'key'))], A(SELF, 'signatures'): [S(('var', 'sig'))],
+                A(SELF, 'locktime_cltv'): None, A(SELF, 'locktime_csv'): None}
+
+        def decide(t):
+            if t in (('var', 'scriptsig'), ('var', 'h'), ('len', ('var', 'scriptsig')), ('len', ('var', 'h'))):
+                return True
+            return None
+        it = Interp(ctx.repo, 'transactions', hooks=LAYOUT_HOOKS, self_cls='transactions:Input', decide=decide)
+        try:
+            exits = it.run_function(fn, {'self': S(SELF), 'hash_type': 1}, State(heap=heap))
+        except AnalysisError as e:
+            ctx.undecided('Input.update_scripts for a non-strict %s / %s input not evaluable: %s' % (stype, wt, str(e)[:100]))
+        rets = [e for e in exits if e.kind == 'return']
+        if not rets:
+            ctx.undecided('Input.update_scripts for a non-strict %s / %s input: no normal exit' % (stype, wt))
+        for e in rets:
+            got = term(e.heap.get(A(SELF, 'unlocking_script')))
+            n += 1
+            ctx.saw('non-strict %s / %s input with a scriptSig -> unlocking_script = %s' % (stype, wt, show(got)[:60]))
+            ctx.require(got == ('var', 'scriptsig'), q, 'a %s / %s input read with strict=False ends with unlocking_script = %s instead of the bytes that were read' % (stype, wt, show(got)[:100]), fn,
+                        'a scriptSig with a non-minimal push or a signature with sighash byte 0, read through Block.parse / parse(strict=False), is re-encoded: raw() and Block.serialize() are no longer the bytes read')
+    ctx.floor(n, 3, 'non-strict scenarios')
+
+
+@PROP.obligation('C06.parsed-script-kept')
+def parsed_script_kept(ctx):
+    """The same evaluation of Input.update_scripts for the remaining ways a parsed scriptSig reaches it: the default strict=True reader with
+    a <sig> <pubkey> input, and a legacy P2SH multisig input under either reader. Serialising again reproduces the bytes read only if
+    self.unlocking_script ends as it started; a regenerated script re-encodes every non-minimal push (valid before segwit, present in
+    old blocks) and drops a signature whose sighash byte is 0."""
+    q = 'transactions:Input.update_scripts'
+    fn = ctx.repo.func(q)
+    U = S(('var', 'scriptsig'), 'bytes')
+    rs = b'\x52' + b'\x21' + b'\x02' * 33 + b'\x21' + b'\x03' * 33 + b'\x52\xae'
+    n = 0
+    for stype, strict in (('sig_pubkey', True), ('p2sh_multisig', False), ('p2sh_multisig', True)):
+        heap = {A(SELF, 'script_type'): stype, A(SELF, 'witness_type'): 'legacy', A(SELF, 'strict'): strict, A(SELF, 'unlocking_script'): U,
+                A(SELF, 'public_hash'): S(('var', 'h'), 'bytes'), A(SELF, 'locktime_cltv'): None, A(SELF, 'locktime_csv'): None}
+        if stype == 'sig_pubkey':
+            heap.update({A(SELF, 'keys'): [S(('var', 'key'))], A(SELF, 'signatures'): [S(('var', 'sig'))]})
+        else:
+            heap.update({A(SELF, 'keys'): [S(('var', 'key1')), S(('var', 'key2'))], A(SELF, 'signatures'): [S(('var', 'sig1')), S(('var', 'sig2'))],
+                         A(SELF, 'redeemscript'): rs, A(SELF, 'sigs_required'): 2})
+
+        def decide(t):
+            if t in (('var', 'scriptsig'), ('var', 'h'), ('len', ('var', 'scriptsig')), ('len', ('var', 'h'))):
+                return True
+            return None
+        it = Interp(ctx.repo, 'transactions', hooks=LAYOUT_HOOKS, self_cls='transactions:Input', decide=decide)
+        try:
+            exits = it.run_function(fn, {'self': S(SELF), 'hash_type': 1}, State(heap=heap))
+        except AnalysisError as e:
+            ctx.undecided('Input.update_scripts for a parsed %s input (strict=%s) not evaluable: %s' % (stype, strict, str(e)[:100]))
+        rets = [e for e in exits if e.kind == 'return']
+        if not rets:
+            ctx.undecided('Input.update_scripts for a parsed %s input (strict=%s): no normal exit' % (stype, strict))
+        n += 1
+        kept = all(term(e.heap.get(A(SELF, 'unlocking_script'))) == ('var', 'scriptsig') for e in rets)
+        ctx.saw('parsed legacy %s input, strict=%s -> scriptSig %s' % (stype, strict, 'kept' if kept else 'regenerated from the parsed signatures and keys'))
+        ctx.require(kept, q, 'the scriptSig of a legacy %s input parsed with strict=%s is regenerated from the parsed signatures and keys instead of kept' % (stype, strict), fn,
+                    'Transaction.parse(raw).raw() != raw for a well-formed transaction whose scriptSig uses a non-minimal push (OP_PUSHDATA1 for a 71-byte signature)')
+    ctx.floor(n, 3, 'parsed-input scenarios')
